@@ -2,6 +2,7 @@ package psim
 
 import (
 	"fmt"
+	"os"
 	"strings"
 
 	"github.com/martian-lang/martian/martian/verifsim/vos"
@@ -76,7 +77,17 @@ func c06Case(c *Ctx) {
 	} else {
 		retries = 2
 	}
-	base := &RunCfg{Prog: prog, FCfg: fcfg, MaxSteps: 80000, Flags: flags}
+	// a fifth of the bases run in cluster mode under --maxjobs: jobs wait for a
+	// submission slot, are not children of mrp, and an in-process retry replaces the
+	// slot semaphore while siblings of the failed job still wait for it
+	jobMode := ""
+	if c.Plan.Draw(5) == 0 || os.Getenv("VERIF_C06_CLUSTER") != "" {
+		jobMode = "sge"
+		flags = append(flags, fmt.Sprintf("--maxjobs=%d", 1+c.Plan.Draw(3)), fmt.Sprintf("--jobinterval=%d", []int{0, 100, 2000}[c.Plan.Draw(3)]))
+		fcfg.MaxChunks = 2 + c.Plan.Draw(4)
+		c.Res.Probes["cluster-mode-bases"]++
+	}
+	base := &RunCfg{Prog: prog, FCfg: fcfg, MaxSteps: 80000, Flags: flags, JobMode: jobMode}
 	swarmSched(c.Plan, base)
 	twin := c.RunOnce(base, nil)
 	c.Res.Shape = progShape(prog)
@@ -111,9 +122,15 @@ func c06Case(c *Ctx) {
 			}
 		}
 		m := ms[c.Plan.Draw(len(ms))]
+		if jobMode != "" && m.name == "exit-nonzero" {
+			// in cluster mode nobody sees a job's exit status: the job is missed by
+			// the queue check after its grace period, which counts as transient
+			// (the scheduler may have lost or pre-empted it)
+			m.class = "transient"
+		}
 		persistent := c.Plan.Draw(3) == 0
 		key := j.Key() + ":" + j.Phase
-		cfg := &RunCfg{Prog: prog, FCfg: fcfg, MaxSteps: 80000, Flags: flags,
+		cfg := &RunCfg{Prog: prog, FCfg: fcfg, MaxSteps: 80000, Flags: flags, JobMode: jobMode,
 			WMrp: base.WMrp, WJob: base.WJob, WAux: base.WAux, WTime: base.WTime,
 			MapMode: base.MapMode, MapSalt: base.MapSalt}
 		if persistent {
